@@ -224,11 +224,15 @@ func (w *World) recoverTask() {
 	if r == nil {
 		return
 	}
-	switch r.(type) {
+	switch sp := r.(type) {
 	case killSentinel:
 		return
 	case StopPanic:
-		return // already recorded by simlog
+		// log.Panicf / log.Fatalf of the code under test has unwound its goroutine: the process is gone now
+		if !w.Killed() && !w.stoppedWith(sp.Msg) {
+			w.ProcessStopped(sp.Msg)
+		}
+		return
 	default:
 		if w.Killed() {
 			return
